@@ -264,6 +264,43 @@ Section Runner.
           cbn [arrived_by fold_right fst snd]. fold (arrived_by rest tau).
           destruct (t <=? tau)%N; reflexivity.
   Qed.
+
+  Lemma run_script_end_quiet tf e : forall script now st k,
+    inv st k -> stream_of script = skipn k s -> paced_until now script tf -> (tf < D)%N ->
+    (exists reads, run_script_end wrap drain_cap D now st script tf e = reads ++ [AReadErr tf e; AReturn tf] /\
+                   Forall (fun a => exists t n, a = ARead t n /\ (t <= tf)%N) reads) /\
+    (forall tau, read_by (run_script_end wrap drain_cap D now st script tf e) tau = arrived_by script tau).
+  Proof.
+    induction script as [|[t c] rest IH]; intros now st k Hinv Hs Hp Htf.
+    - cbn [paced_until] in Hp. cbn [run_script_end].
+      destruct (D <=? tf)%N eqn:E; [apply N.leb_le in E; lia|].
+      replace (N.max now tf) with tf by lia.
+      split; [exists []; split; [reflexivity|constructor]|]. intros tau. reflexivity.
+    - cbn [paced_until fst] in Hp. destruct Hp as [Hnow Hp].
+      assert (Ht : (t <= tf)%N).
+      { clear -Hp. revert t Hp. induction rest as [|[t' c'] rest IHr]; intros t Hp; cbn [paced_until fst] in Hp; [exact Hp|].
+        destruct Hp as [H1 H2]. specialize (IHr t' H2). lia. }
+      cbn [run_script_end]. destruct (D <=? t)%N eqn:E; [apply N.leb_le in E; lia|].
+      replace (N.max now t) with t by lia.
+      unfold stream_of in Hs. cbn [map concat snd] in Hs. fold (stream_of rest) in Hs.
+      destruct (feed_now_quiet (length c) t st k c (stream_of rest) (Nat.le_refl _) Hinv Hs)
+        as [st' [tr [Ef [Hinv' [Hall Hrb]]]]].
+      rewrite Ef.
+      assert (Hs' : stream_of rest = skipn (k + length c) s) by (eapply rest_after_chunk; exact Hs).
+      destruct (IH t st' (k + length c) Hinv' Hs' Hp Htf) as [[reads [Er Hreads]] Hrb'].
+      assert (Erun : (match st' with
+                      | HDecided cs buf => tr ++ finish D t cs buf []
+                      | _ => tr ++ run_script_end wrap drain_cap D t st' rest tf e
+                      end) = tr ++ run_script_end wrap drain_cap D t st' rest tf e).
+      { destruct Hinv' as [-> | [ts' [-> _]]]; reflexivity. }
+      rewrite Erun. split.
+      + exists (tr ++ reads). split; [rewrite Er, app_assoc; reflexivity|].
+        apply Forall_app. split; [|exact Hreads].
+        eapply Forall_impl; [|exact Hall]. intros a [n ->]. exists t, n. split; [reflexivity|exact Ht].
+      + intros tau. rewrite read_by_app, Hrb, (Hrb' tau).
+        cbn [arrived_by fold_right fst snd]. fold (arrived_by rest tau).
+        destruct (t <=? tau)%N; reflexivity.
+  Qed.
 End Runner.
 
 Lemma arrived_by_shape s1 s2 tau : shape s1 = shape s2 -> arrived_by s1 tau = arrived_by s2 tau.
@@ -296,6 +333,54 @@ Section Final.
     split.
     - exists reads. unfold tr, run. rewrite Er. split; [reflexivity|exact Hreads].
     - intros tau Htau. unfold tr, run. cbn [read_by fold_right]. apply Hrb, Htau.
+  Qed.
+
+  Theorem peer_close_answered_at_once :
+    forall tbl R tracked ts drain_cap D script tf e,
+      prefix_table_wfb tbl = true ->
+      paced_until 0%N script tf -> (tf < D)%N ->
+      ~ presents_tag reveal mark tbl R (stream_of script) ->
+      let tr := run_end (cwrap reveal mark hs_ok tbl R) drain_cap D tracked ts script tf e in
+      only_reads_until_peer_close D tf e tr /\
+      (forall tau, read_by tr tau = arrived_by script tau).
+  Proof.
+    intros tbl R tracked ts drain_cap D script tf e Hwf Hp Htf Hno tr.
+    pose proof (no_tag_quiet reveal mark hs_ok tbl R _ ts Hwf Hno) as Hq.
+    assert (Hinv : inv ts (stream_of script) (init tracked ts) 0).
+    { unfold init. destruct (tracked <? 1); [now left|]. destruct ts as [|a l] eqn:E; [now left|].
+      right. exists (a :: l). split; [reflexivity|apply incl_refl]. }
+    destruct (run_script_end_quiet _ drain_cap ts _ Hq D tf e script 0%N _ 0 Hinv eq_refl Hp Htf) as [[reads [Er Hreads]] Hrb].
+    split.
+    - exists reads. unfold tr, run_end. rewrite Er. split; [reflexivity|exact Hreads].
+    - intros tau. unfold tr, run_end. cbn [read_by fold_right]. apply Hrb.
+  Qed.
+
+  Lemma non_reads_peer_close tr D tf e :
+    only_reads_until_peer_close D tf e tr -> non_reads tr = [ASetDeadline D; AReadErr tf e; AReturn tf].
+  Proof.
+    intros [reads [-> Hall]]. unfold non_reads. cbn [filter is_read negb].
+    rewrite filter_app. cbn. f_equal.
+    rewrite filter_nil_iff; [reflexivity|].
+    intros a Ha. rewrite Forall_forall in Hall. destruct (Hall a Ha) as [t [n [-> _]]]. reflexivity.
+  Qed.
+
+  Theorem peer_close_identical :
+    forall tbl1 tbl2 R1 R2 tracked1 tracked2 ts1 ts2 cap1 cap2 D script1 script2 tf e,
+      prefix_table_wfb tbl1 = true -> prefix_table_wfb tbl2 = true ->
+      paced_until 0%N script1 tf -> paced_until 0%N script2 tf -> (tf < D)%N ->
+      shape script1 = shape script2 ->
+      ~ presents_tag reveal mark tbl1 R1 (stream_of script1) ->
+      ~ presents_tag reveal mark tbl2 R2 (stream_of script2) ->
+      let tr1 := run_end (cwrap reveal mark hs_ok tbl1 R1) cap1 D tracked1 ts1 script1 tf e in
+      let tr2 := run_end (cwrap reveal mark hs_ok tbl2 R2) cap2 D tracked2 ts2 script2 tf e in
+      non_reads tr1 = non_reads tr2 /\ (forall tau, read_by tr1 tau = read_by tr2 tau).
+  Proof.
+    intros tbl1 tbl2 R1 R2 k1 k2 ts1 ts2 cap1 cap2 D s1 s2 tf e Hw1 Hw2 Hp1 Hp2 Htf Hsh Hn1 Hn2 tr1 tr2.
+    destruct (peer_close_answered_at_once tbl1 R1 k1 ts1 cap1 D s1 tf e Hw1 Hp1 Htf Hn1) as [Ho1 Hr1].
+    destruct (peer_close_answered_at_once tbl2 R2 k2 ts2 cap2 D s2 tf e Hw2 Hp2 Htf Hn2) as [Ho2 Hr2].
+    split.
+    - unfold tr1, tr2. rewrite (non_reads_peer_close _ D tf e Ho1), (non_reads_peer_close _ D tf e Ho2). reflexivity.
+    - intros tau. unfold tr1, tr2. rewrite (Hr1 tau), (Hr2 tau). now apply arrived_by_shape.
   Qed.
 
   Lemma non_reads_only tr D : only_reads_until D tr -> non_reads tr = [ASetDeadline D; ATimeout D; AReturn D].
